@@ -431,6 +431,10 @@ def nr_rks_nldf(
                 wv_full[idm, :, ip0:ip1] = weight * vxc
             ip0 = ip1
         for idm in range(nset):
+            if nset > 1:
+                # get_potential uses intermediates cached by the latest
+                # get_features call, so refresh them for this density matrix
+                ni.nldfgen.get_features(rho_full[idm])
             wv_full[idm, :, :] += ni.nldfgen.get_potential(vxc_nldf_full[idm])
 
     buffers = None
@@ -583,6 +587,11 @@ def nr_uks_nldf(
                 wvb_full[idm, :, ip0:ip1] = weight * vxc[1]
             ip0 = ip1
         for idm in range(nset):
+            if nset > 1:
+                # get_potential uses intermediates cached by the latest
+                # get_features call, so refresh them for this density matrix
+                ni.nldfgen.get_features(rhoa_full[idm], spin=0)
+                ni.nldfgen.get_features(rhob_full[idm], spin=1)
             wva_full[idm, :, :] += ni.nldfgen.get_potential(
                 vxc_nldf_full[idm, 0], spin=0
             )
